@@ -72,9 +72,11 @@ def val(shape, slot, cplx, seed, nonzero=False):
     """Deterministic small-integer (or Gaussian-integer) array; `slot` separates the operands of one call."""
     shape = tuple(int(s) for s in shape)
     off = seed * 31 + slot * 7 + sum(shape) + len(shape)
+    # the memory layout of every operand rotates with (shape, slot, seed): C / Fortran / negative strides / strided view
+    lay = off + len(shape) + (shape[0] if shape else 0)
     if cplx:
-        return V.ints(shape, off, 2, nonzero) + 1j * V.ints(shape, off + 17, 2)
-    return V.ints(shape, off, 3, nonzero)
+        return V.relayout(V.ints(shape, off, 2, nonzero) + 1j * V.ints(shape, off + 17, 2), lay)
+    return V.relayout(V.ints(shape, off, 3, nonzero), lay)
 
 
 def weights_for(rank, seed, cplx=False):
